@@ -160,6 +160,7 @@ func (dc *dataChunk) GetRecordByOffset(offset uint32) (res *Record, inbuffer boo
 		res.Payload.Decompress()
 		return
 	}
+	verifPoint("get:after-buffer-miss")
 	wrec, e := readRecordAtPath(dc.path, offset)
 	if e != nil {
 		return nil, false, e
